@@ -103,3 +103,449 @@ def dce_family(tier='quick'):
         progs.append(f'1; L: {{ 2; break L; {t} }}')
         progs.append(f'3; switch (1) {{ case 1: 4; break; {t} case 2: 5; }}')
     return list(dict.fromkeys(progs))
+
+
+# ------------------------------------------------------------------------------------------------
+# op (C01, C04): operators x operand alphabet x operand forms
+# ------------------------------------------------------------------------------------------------
+OP_VALS = ['0', '-0', '1', '-1', '2147483647', '-2147483648', '4294967296', '0.5', 'NaN', 'Infinity', '""', '"5"', '"a"', 'true', 'null',
+           'undefined', '1n', '-2n',
+           '({valueOf(){print("vo");return 3}})', '({toString(){print("ts");return "7"}})',
+           '({[Symbol.toPrimitive](h){print("tp",h);return 2}})', '[]', '[2]']
+OP_BIN = ['+', '-', '*', '/', '%', '**', '<<', '>>', '>>>', '&', '|', '^', '<', '<=', '>', '>=', '==', '!=', '===', '!==', '&&', '||', '??',
+          'in', 'instanceof', ',']
+OP_UN = ['-', '+', '~', '!', 'typeof ', 'void ']
+OP_ASSIGN = ['=', '+=', '-=', '*=', '/=', '%=', '**=', '<<=', '>>=', '>>>=', '&=', '|=', '^=', '&&=', '||=', '??=']
+_TC = 'try {{ {} }} catch (e) {{ print("E", e.name) }}'
+
+
+def op_family(tier='quick'):
+    progs = []
+    vals = OP_VALS
+    for op in OP_BIN:
+        for a in vals:
+            for b in vals:
+                e = f'(a {op} b)'
+                progs.append(f'(function(){{ let a = {a}, b = {b}; ' + _TC.format(f'print({e})') + ' })()')
+                progs.append(f'var a = {a}, b = {b}; ' + _TC.format(f'print({e})'))
+                progs.append(_TC.format(f'print(({a}) {op} ({b}))'))
+                if tier == 'thorough':
+                    progs.append(f'(function(){{ let a = {a}, b = {b}; let f = () => [a, b]; ' + _TC.format(f'print({e})') + ' })()')
+                    progs.append(f'var o = {{a: {a}, b: {b}}}, k = "b"; ' + _TC.format(f'print(o.a {op} o[k])'))
+    for op in OP_UN:
+        for a in vals:
+            progs.append(f'(function(){{ let a = {a}; ' + _TC.format(f'print({op}a)') + ' })()')
+            progs.append(_TC.format(f'print({op}({a}))'))
+            progs.append(f'var a = {a}; ' + _TC.format(f'print({op}a)'))
+    rhs = ['1', '"5"', 'undefined', '1n', '({valueOf(){print("vo");return 3}})']
+    for op in OP_ASSIGN:
+        for a in vals:
+            for b in rhs:
+                progs.append(f'(function(){{ let a = {a}; try {{ print(a {op} {b}, a) }} catch (e) {{ print("E", e.name, a) }} }})()')
+                progs.append(f'var a = {a}; try {{ print(a {op} {b}, a) }} catch (e) {{ print("E", e.name, a) }}')
+                progs.append(f'var o = {{a: {a}}}; try {{ print(o.a {op} {b}, o.a) }} catch (e) {{ print("E", e.name, o.a) }}')
+                progs.append(f'(function(){{ let a = {a}; try {{ print(a + (a {op} {b}), a) }} catch (e) {{ print("E", e.name, a) }} }})()')
+                progs.append(f'(function(){{ let a = {a}; let f = () => a; try {{ print(a + (a {op} {b}), a, f()) }} catch (e) {{ print("E", e.name, a) }} }})()')
+                progs.append(f'var a = {a}; var v; try {{ v = "x" + (a {op} {b}); print(v, a) }} catch (e) {{ print("E", e.name, a, v) }}')
+                progs.append(f'(function(a){{ try {{ print(a {op} {b}, a, arguments[0]) }} catch (e) {{ print("E", e.name, a) }} }})({a})')
+    for a in vals:
+        for u in ['a++', 'a--', '++a', '--a']:
+            progs.append(f'(function(){{ let a = {a}; try {{ print({u}, a) }} catch (e) {{ print("E", e.name, a) }} }})()')
+            progs.append(f'(function(){{ let a = {a}; try {{ print(typeof ({u}), a) }} catch (e) {{ print("E", e.name, a) }} }})()')
+            progs.append(f'(function(){{ let a = {a}; let f = () => a; try {{ print({u}, a, f()) }} catch (e) {{ print("E", e.name, a) }} }})()')
+            progs.append(f'var a = {a}; try {{ print({u}, a) }} catch (e) {{ print("E", e.name, a) }}')
+            progs.append(f'var o = {{a: {a}}}; var k="a"; try {{ print({u.replace("a", "o[k]")}, o.a) }} catch (e) {{ print("E", e.name, o.a) }}')
+            progs.append(f'var o = {{a: {a}}}; try {{ print({u.replace("a", "o.a")}, o.a) }} catch (e) {{ print("E", e.name, o.a) }}')
+            progs.append(f'(function(){{ let a = {a}; try {{ print(a + ({u}), ({u}) + a, a) }} catch (e) {{ print("E", e.name, a) }} }})()')
+    return list(dict.fromkeys(progs))
+
+
+# ------------------------------------------------------------------------------------------------
+# ctl (C01, C03, C04): all statement trees by node count
+# ------------------------------------------------------------------------------------------------
+CTL_LEAVES = ['P', 'Break', 'BreakL', 'Continue', 'ContinueL', 'Return', 'Throw', 'Decl', 'Yield']
+CTL_UN = ['While', 'DoWhile', 'For', 'ForOf', 'ForIn', 'Lab', 'Block1', 'IfT']
+CTL_BIN = ['If', 'Seq', 'Try', 'TryF', 'Switch']
+CTL_TER = ['TryCF']
+
+
+@functools.lru_cache(None)
+def ctl_trees(n):
+    out = []
+    if n == 1:
+        return [(l,) for l in CTL_LEAVES]
+    for u in CTL_UN:
+        for c in ctl_trees(n - 1):
+            out.append((u, c))
+    for b in CTL_BIN:
+        for k in range(1, n - 1):
+            for c1 in ctl_trees(k):
+                for c2 in ctl_trees(n - 1 - k):
+                    out.append((b, c1, c2))
+    for t in CTL_TER:
+        for k1 in range(1, n - 2):
+            for k2 in range(1, n - 1 - k1):
+                k3 = n - 1 - k1 - k2
+                if k3 < 1:
+                    continue
+                for c1 in ctl_trees(k1):
+                    for c2 in ctl_trees(k2):
+                        for c3 in ctl_trees(k3):
+                            out.append((t, c1, c2, c3))
+    return out
+
+
+class _St:
+    def __init__(s):
+        s.n = 0
+        s.loops = 0
+
+
+def _ctl_emit(t, st, inloop, inlab, kind):
+    k = t[0]
+
+    def pid():
+        st.n += 1
+        return st.n
+    if k == 'P':
+        return f'print({pid()});'
+    if k == 'Decl':
+        return f'let d{pid()} = () => c; print(typeof d{st.n});'
+    if k == 'Break':
+        return 'break;' if inloop else f'print("nb{pid()}");'
+    if k == 'Continue':
+        return 'continue;' if inloop == 2 else f'print("nc{pid()}");'
+    if k == 'BreakL':
+        return 'break L;' if inlab else f'print("nbl{pid()}");'
+    if k == 'ContinueL':
+        return 'continue L;' if inlab == 2 else f'print("ncl{pid()}");'
+    if k == 'Return':
+        return f'return {pid()};'
+    if k == 'Throw':
+        return f'throw {pid()};'
+    if k == 'Yield':
+        if kind == 'gen':
+            return f'print("y", yield {pid()});'
+        if kind == 'async':
+            return f'print("aw", await {pid()});'
+        return f'print("ny{pid()}");'
+
+    def sub(c, il=inloop, ib=inlab):
+        return _ctl_emit(c, st, il, ib, kind)
+    if k in ('While', 'DoWhile', 'For', 'ForOf', 'ForIn'):
+        st.loops += 1
+        v = f'i{st.loops}'
+        body = sub(t[1], 2)
+        if k == 'While':
+            return f'{{ let {v}=0; while ({v}++ < 2) {{ c++; {body} }} }}'
+        if k == 'DoWhile':
+            return f'{{ let {v}=0; do {{ c++; {body} }} while ({v}++ < 1); }}'
+        if k == 'For':
+            return f'for (let {v}=0; {v} < 2; {v}++) {{ c++; let z = () => {v}; {body} }}'
+        if k == 'ForOf':
+            return f'for (const {v} of it()) {{ c++; {body} }}'
+        if k == 'ForIn':
+            return f'for (var {v} in {{x:1,y:2}}) {{ c++; {body} }}'
+    if k == 'Lab':
+        st.loops += 1
+        v = f'i{st.loops}'
+        if inlab:
+            return f'{{ {sub(t[1])} }}'
+        return f'L: for (let {v}=0; {v} < 2; {v}++) {{ c++; {_ctl_emit(t[1], st, 2, 2, kind)} }}'
+    if k == 'Block1':
+        return f'{{ let b{pid()} = c; {sub(t[1])} }}'
+    if k == 'IfT':
+        return f'if (c % 2 == 0) {{ {sub(t[1])} }}'
+    if k == 'If':
+        return f'if (c++ % 2 == 0) {{ {sub(t[1])} }} else {{ {sub(t[2])} }}'
+    if k == 'Seq':
+        return f'{sub(t[1])} {sub(t[2])}'
+    if k == 'Try':
+        return f'try {{ {sub(t[1])} }} catch (e) {{ print("c", e); {sub(t[2])} }}'
+    if k == 'TryF':
+        return f'try {{ {sub(t[1])} }} finally {{ print("f"); {sub(t[2])} }}'
+    if k == 'TryCF':
+        return f'try {{ {sub(t[1])} }} catch (e) {{ print("c", e); {sub(t[2])} }} finally {{ print("f"); {sub(t[3])} }}'
+    if k == 'Switch':
+        il = inloop if inloop == 2 else 1
+        return f'switch (c % 2) {{ case 0: {_ctl_emit(t[1], st, il, inlab, kind)} case 1: {_ctl_emit(t[2], st, il, inlab, kind)} }}'
+    raise Exception(k)
+
+
+CTL_IT = ('function it() { var n = 0; return { [Symbol.iterator]() { return this }, next() { n++; return n > 2 ? {done: true} : {value: n * 10, done: false} }, '
+          'return(v) { print("it.return"); return {done: true} } } }\n')
+
+
+def _has(t, name):
+    return t[0] == name or any(isinstance(c, tuple) and _has(c, name) for c in t[1:])
+
+
+def ctl_program(t, kind='fn'):
+    st = _St()
+    body = _ctl_emit(t, st, 0, 0, kind)
+    pre = 'var c = 0; ' + CTL_IT
+    if kind == 'fn':
+        return pre + f'function f() {{ {body} print("end"); return "r"; }} try {{ print("ret", f()); }} catch (e) {{ print("thrown", e); }} print("c", c);'
+    if kind == 'top':
+        # script top level: no return
+        return pre + f'try {{ (function(){{ {body} }})() }} catch (e) {{ print("thrown", e) }} print("c", c);'
+    if kind == 'gen':
+        return pre + (f'function* f() {{ {body} print("end"); return "r"; }} var g = f(); '
+                      'try { print("n1", g.next("a")); print("n2", g.next("b")); print("rt", g.return("R")); print("n3", g.next("c")); } '
+                      'catch (e) { print("thrown", e); try { print("n4", g.next()) } catch (e2) { print("thrown2", e2) } } print("c", c);')
+    if kind == 'gen-throw':
+        return pre + (f'function* f() {{ {body} print("end"); return "r"; }} var g = f(); '
+                      'try { print("n1", g.next("a")); print("th", g.throw("T")); print("n2", g.next("b")); } '
+                      'catch (e) { print("thrown", e); try { print("n4", g.next()) } catch (e2) { print("thrown2", e2) } } print("c", c);')
+    if kind == 'async':
+        return pre + (f'async function f() {{ {body} print("end"); return "r"; }} '
+                      'f().then(v => print("ret", v), e => print("thrown", e)).then(() => print("c", c)); print("sync-end");')
+    raise Exception(kind)
+
+
+def ctl_family(n_max, kinds=('fn',)):
+    progs = []
+    for kind in kinds:
+        for n in range(1, n_max + 1):
+            for t in ctl_trees(n):
+                if kind == 'fn' and _has(t, 'Yield'):
+                    continue
+                if kind != 'fn' and not _has(t, 'Yield') and n == n_max and n >= 4:
+                    continue  # largest size without yield/await is covered by 'fn'
+                progs.append(ctl_program(t, 'gen' if kind == 'gen' else kind))
+    return list(dict.fromkeys(progs))
+
+
+# ------------------------------------------------------------------------------------------------
+# scope (C01, C04): declarations x parameter lists x uses
+# ------------------------------------------------------------------------------------------------
+def _decls(n):
+    return [f'var {n};', f'var {n} = 1;', f'let {n} = 2;', f'const {n} = 3;', f'function {n}(){{ return 4 }}', f'class {n} {{}}',
+            f'{{ let {n} = 5; print("blk", {n}); }}', f'try {{ throw 6 }} catch ({n}) {{ print("ct", {n}); }}',
+            f'for (let {n} = 0; {n} < 1; {n}++) {{ print("fl", {n}); }}', f'{{ function {n}(){{ return 7 }} }}', '']
+
+
+def _uses(n):
+    return [f'print("r", {n});', f'{n} = 50; print("w", {n});', f'print("t", typeof {n});', f'print("cr", (() => {n})());',
+            f'(() => {{ {n} = 60 }})(); print("cw", {n});', f'print("d", delete {n});', f'print("ev", eval("{n}"));',
+            f'with ({{{n}: 9}}) {{ print("wi", {n}); }}', f'print("ty", typeof {n} === "function" ? {n}() : {n});',
+            f'{n}++; print("u", {n});', f'eval("var {n} = 70"); print("evv", {n});']
+
+
+SCOPE_PARAMS = [('a', '7'), ('a=1', ''), ('a,b=a', '7'), ('a=b,b', 'undefined,8'), ('a,b=()=>a', '7'), ('{a}', '{a:7}'), ('[a]', '[7]'),
+                ('...a', '7,8'), ('a,a', '7,8'), ('a=eval("x")', ''), ('a, b = function(){ return a }', '7'), ('a = () => x, x', 'undefined, 8')]
+
+
+def scope_family(tier='quick'):
+    progs = []
+
+    def wrap(params, args, body, strict):
+        s = '"use strict"; ' if strict else ''
+        return f'function f({params}) {{ {s}{body} }} try {{ print("ret", f({args})) }} catch (e) {{ print("E", e.name) }}'
+    D, U = _decls('x'), _uses('x')
+    for d1 in D:
+        for d2 in D:
+            for ui, u in enumerate(U):
+                tu = 'try { ' + u + ' } catch (e) { print("E1", e.name) }'
+                for pos in range(3):
+                    parts = [d1, d2]
+                    parts.insert(pos, tu)
+                    body = ' '.join(parts) + ' return typeof x;'
+                    for strict in (False, True):
+                        if tier == 'quick' and strict and ui not in (0, 1, 5, 6):
+                            continue
+                        progs.append(wrap('p', '1', body, strict))
+    D, U = _decls('a'), _uses('a')
+    for params, args in SCOPE_PARAMS:
+        for d in D:
+            for u in U:
+                tu = 'try { ' + u + ' } catch (e) { print("E1", e.name) }'
+                for pos in range(2):
+                    parts = [d]
+                    parts.insert(pos, tu)
+                    body = ' '.join(parts) + ' return typeof b === "function" ? [typeof a, b()] : typeof a;'
+                    for strict in ((False, True) if tier == 'thorough' else (False,)):
+                        progs.append(wrap(params, args, body, strict))
+    # top-level (global) declarations: two scripts' worth of declarations in one script
+    D, U = _decls('x'), _uses('x')
+    for d1 in D:
+        for d2 in D:
+            for u in U[:8]:
+                progs.append(f'{d1} {d2} try {{ {u} }} catch (e) {{ print("E1", e.name) }} typeof x')
+    return list(dict.fromkeys(progs))
+
+
+# ------------------------------------------------------------------------------------------------
+# destr (C01)
+# ------------------------------------------------------------------------------------------------
+DESTR_PATTERNS = ['{a}', '{a=1}', '{a:b}', '{a:{b}}', '{a:[b]}', '{[k()]:a}', '{a,...r}', '{a:{b},...r}', '{a:b=k()}', '[a]', '[a=1]', '[,a]',
+                  '[a,...r]', '[[a]]', '[{a}]', '[a,b=a]', '{a,b=a}', '[...[a,b]]', '{}', '[]', '[a=k(),b=k()]', '{a:{b}={b:k()}}', '[a,,b]',
+                  '{a,a:b}', '[...{length:a}]']
+DESTR_SOURCES = ['{a:1,b:2,c:3}', '{a:{b:5},x:1}', '{a:[6],y:2}', '[1,2,3]', '[[7,8],9]', '[{a:9}]', '"xy"', 'iter()', 'null', 'undefined',
+                 '{get a(){print("ga");return 4}, get b(){print("gb");return undefined}}', '[undefined,null]', '7']
+DESTR_PRE = ('function k(){ print("k"); return "a" } function iter(){ var n=0; return {[Symbol.iterator](){return this}, next(){ n++; print("nx", n); return {value:n, done:n>3} }, '
+             'return(){ print("it.return"); return {} }} }\n'
+             'function show(){ var o = []; try { o.push(a) } catch (e) { o.push("!a") } try { o.push(b) } catch (e) { o.push("!b") } try { o.push(r) } catch (e) { o.push("!r") } print.apply(null, o) }\n')
+
+
+def destr_family(tier='quick'):
+    progs = []
+    for p in DESTR_PATTERNS:
+        for s in DESTR_SOURCES:
+            body = []
+            body.append(f'(function(){{ try {{ var {p} = {s}; print(typeof a, typeof b, typeof r, typeof a == "undefined" ? 0 : a, typeof b == "undefined" ? 0 : b, typeof r == "undefined" ? 0 : r) }} catch (e) {{ print("E", e.name) }} }})()')
+            body.append(f'(function(){{ try {{ let {p} = {s}; print(typeof a == "undefined" ? 0 : a, typeof b == "undefined" ? 0 : b, typeof r == "undefined" ? 0 : r) }} catch (e) {{ print("E", e.name) }} }})()')
+            body.append(f'(function(){{ function g({p}) {{ print(typeof a == "undefined" ? 0 : a, typeof b == "undefined" ? 0 : b, typeof r == "undefined" ? 0 : r, arguments.length) }} try {{ g({s}) }} catch (e) {{ print("E", e.name) }} }})()')
+            body.append(f'(function(){{ var a, b, r; try {{ print(({p} = {s}) === undefined); print(a, b, r) }} catch (e) {{ print("E", e.name, a, b, r) }} }})()')
+            body.append(f'(function(){{ try {{ for (const {p} of [{s}]) {{ print(typeof a == "undefined" ? 0 : a, typeof b == "undefined" ? 0 : b, typeof r == "undefined" ? 0 : r) }} }} catch (e) {{ print("E", e.name) }} }})()')
+            body.append(f'(function(){{ try {{ try {{ throw {s} }} catch ({p}) {{ print(typeof a == "undefined" ? 0 : a, typeof b == "undefined" ? 0 : b, typeof r == "undefined" ? 0 : r) }} }} catch (e) {{ print("E", e.name) }} }})()')
+            body.append(f'var a, b, r; try {{ [{p} = {s}] = []; print(a, b, r) }} catch (e) {{ print("E", e.name, a, b, r) }}')
+            body.append(f'try {{ var {p} = {s}; print(typeof a == "undefined" ? 0 : a, typeof b == "undefined" ? 0 : b, typeof r == "undefined" ? 0 : r) }} catch (e) {{ print("E", e.name) }}')
+            for b in body:
+                progs.append(DESTR_PRE + b)
+    return list(dict.fromkeys(progs))
+
+
+# ------------------------------------------------------------------------------------------------
+# class (C01)
+# ------------------------------------------------------------------------------------------------
+CLASS_ELEMS = ['f = print("f") || 1;', 'static s = print("s") || 2;', 'm() { return "m" + (this.f|0) }', 'get g() { return "g" } set g(v) { print("set", v) }',
+               '#p = print("p") || 3; rp() { return this.#p }', '#pm() { return "pm" } cpm() { return this.#pm() }', 'static { print("sb", typeof this, this.s) }',
+               '[print("ck") || "c"]() { return "cv" }', 'static sm() { return "sm" + typeof this.s }', 'f = this.constructor.name;', '"quoted" = 9;', 'static #sp = 4; static rsp() { return C.#sp }']
+CLASS_HERITAGE = ['', 'extends Base', 'extends null', 'extends (print("her") || Base)']
+CLASS_CTORS = ['', 'constructor() { print("ctor"); }', 'constructor() { super(); print("ctor", this.f); }', 'constructor() { print(typeof this); super(); }',
+               'constructor() { super(); return {alien: 1}; }', 'constructor(x = print("arg")) { super(); }']
+CLASS_PRE = 'class Base { constructor() { print("base", new.target === Base); this.b = 1 } bm() { return "bm" } static bs() { return "bs" } }\n'
+CLASS_USE = ('try { var o = new C(); print(o); print(typeof o.m == "function" ? o.m() : 0, o.g, typeof o.rp == "function" ? o.rp() : 0, typeof o.cpm == "function" ? o.cpm() : 0, '
+             'typeof o.c == "function" ? o.c() : 0, typeof C.sm == "function" ? C.sm() : 0, C.s, typeof o.bm, typeof C.bs, Object.getOwnPropertyNames(C.prototype).join(), typeof C.rsp == "function" ? C.rsp() : 0); o.g = 1 } '
+             'catch (e) { print("E", e.name) } try { C() } catch (e) { print("E2", e.name) }')
+
+
+def class_family(tier='quick'):
+    progs = []
+    n_el = 3 if tier == 'thorough' else 2
+    combos = [()]
+    for n in range(1, n_el + 1):
+        combos += list(itertools.product(range(len(CLASS_ELEMS)), repeat=n))
+    for combo in combos:
+        body = ' '.join(CLASS_ELEMS[i] for i in combo)
+        for h in CLASS_HERITAGE:
+            for c in CLASS_CTORS:
+                if len(combo) == 3 and (h == CLASS_HERITAGE[3] or c in CLASS_CTORS[4:]):
+                    continue
+                progs.append(CLASS_PRE + f'try {{ var C = class C {h} {{ {c} {body} }}; }} catch (e) {{ print("E0", e.name) }} ' + CLASS_USE)
+    return list(dict.fromkeys(progs))
+
+
+# ------------------------------------------------------------------------------------------------
+# gen (C01): generator bodies x resume scripts
+# ------------------------------------------------------------------------------------------------
+GEN_BODIES = [
+    'var x = yield 1; print("x", x); var y = yield 2; print("y", y); return 3;',
+    'try { yield 1; yield 2; } finally { print("fin"); }',
+    'try { yield 1; } finally { yield 2; print("fin2"); }',
+    'try { yield 1; } catch (e) { print("caught", e); yield 2; } finally { print("fin"); } yield 3;',
+    'try { yield 1; } finally { return 9; }',
+    'for (var i = 0; i < 3; i++) { try { yield i; } finally { print("f", i); if (i == 1) continue; } }',
+    'yield* [1, 2];  return 5;',
+    'var r = yield* inner(); print("r", r); yield 7;',
+    'yield* objit(true, true); yield 8;',
+    'yield* objit(true, false); yield 8;',
+    'yield* objit(false, false); yield 8;',
+    'yield* objit(false, true); yield 8;',
+    'try { yield* inner(); } catch (e) { print("outer caught", e); yield 6; }',
+    'L: for (var v of it()) { try { yield v; } finally { print("f"); break L; } }',
+    'for (var v of it()) { yield v; }',
+    'var [a, b] = [yield 1, yield 2]; print(a, b);',
+    'var o = {[yield 1]: yield 2}; print(o);',
+    'print(yield (yield 1)); ',
+    'yield; yield undefined; yield* [];',
+    'function* nested() { yield "n" } for (var q of nested()) yield q; return arguments.length;',
+    'try { try { yield 1; } finally { print("in"); } } finally { print("out"); yield 2; }',
+    'while (true) { try { yield 1; break; } finally { print("wf"); } }',
+    'switch (yield 1) { case "a": yield "A"; case "b": yield "B"; break; default: yield "D"; }',
+    'var t = `${yield 1}-${yield 2}`; print(t);',
+    'return yield 1;',
+    'throw (yield 1);',
+]
+GEN_PRE = ('var c = 0; ' + CTL_IT + 'function* inner() { try { var x = yield "i1"; print("ix", x); yield "i2"; return "ir"; } finally { print("ifin"); } }\n'
+           'function objit(hasReturn, hasThrow) { var n = 0; var o = {[Symbol.iterator]() { return this }, next(v) { n++; print("o.next", v); return {value: "o" + n, done: n > 2} }}; '
+           'if (hasReturn) o.return = function(v) { print("o.return", v); return {value: "oret", done: true} }; if (hasThrow) o.throw = function(e) { print("o.throw", e); return {value: "othr", done: false} }; return o }\n')
+GEN_RESUMES = ['next("A")', 'throw("T")', 'return("R")']
+
+
+def gen_family(tier='quick'):
+    progs = []
+    bodies = list(GEN_BODIES)
+    nmax = 3
+    for n in range(1, nmax + 1):
+        for t in ctl_trees(n):
+            if _has(t, 'Yield'):
+                st = _St()
+                bodies.append(_ctl_emit(t, st, 0, 0, 'gen') + ' print("end"); return "r";')
+    depth = 3
+    scripts = []
+    for n in range(1, depth + 1):
+        scripts += list(itertools.product(GEN_RESUMES, repeat=n))
+    for bi, b in enumerate(bodies):
+        for sc in scripts:
+            if tier == 'quick' and bi >= len(GEN_BODIES) and len(sc) == 3 and sc[0] != 'next("A")':
+                continue
+            steps = ' '.join(f'try {{ print("{r[:2]}", g.{r}) }} catch (e) {{ print("thrown", e) }}' for r in sc)
+            progs.append(GEN_PRE + f'function* f() {{ {b} }} var g = f(); {steps} try {{ print("last", g.next("Z")) }} catch (e) {{ print("thrown", e) }} print("c", c);')
+    return list(dict.fromkeys(progs))
+
+
+# ------------------------------------------------------------------------------------------------
+# pair (C01, C04): every ordered pair (outer construct, inner snippet) x function kinds
+# ------------------------------------------------------------------------------------------------
+PAIR_OUTERS = [
+    '{ @ }', 'if (t) { @ }', 'if (!t) {} else { @ }', 'while (n++ < 2) { @ }', 'do { @ } while (n++ < 1);', 'for (var i = 0; i < 2; i++) { @ }',
+    'for (let i = 0; i < 2; i++) { let cl = () => i; @ }', 'for (var k in {p: 1, q: 2}) { @ }', 'for (let v of [1, 2]) { @ }', 'for (const v of it()) { @ }',
+    'L1: { @ }', 'L1: for (var z1 = 0; z1 < 2; z1++) { @ break L1; }', 'switch (1) { case 1: @ }', 'switch (2) { case 1: default: @ }', 'switch (1) { case 1: { @ } case 2: print("ft"); }',
+    'try { @ } catch (e) { print("oc", e) }', 'try { @ } finally { print("of") }', 'try { throw 1 } catch (e) { @ }', 'try { } finally { @ }',
+    'try { throw 1 } catch ({}) { @ } finally { print("of2") }', 'with ({w: 1}) { @ }', '(function () { @ })();', '(() => { @ })();',
+    '(function* () { @ })().next();', '(async function () { @ })().then(v => print("av", v), e => print("ae", e));', 'new (class { constructor() { @ } })();',
+    '({ m() { @ } }).m();', '({ get g() { @ } }).g;', 'class K { static { @ } }', '[1].forEach(function (el) { @ });', 'eval("@Q");', '(0, eval)("@Q");',
+    'new Function("@Q")();', 'var fx = function (p = (() => { @ })()) {}; fx();', 'label2: if (t) { @ }', '(function (a, b) { "use strict"; @ })(1, 2);',
+    'for (var i = 0, fns = []; i < 2; i++) { fns.push(() => i); @ } print(fns.map(f => f()));', '{ let tdz1 = 1; { @ } }', 'if (t) @S', 'while (n++ < 1) @S',
+    'for (let [x1, y1] of [[1, 2]]) { @ }', 'try { try { @ } finally { print("if") } } catch (e) { print("oc2", e) }', '(function () { try { @ } finally { print("rf") } })();',
+    '(function () { for (var j = 0; j < 2; j++) { try { @ } finally { print("lf", j) } } })();', 'void async function () { await 0; @ }();',
+]
+PAIR_INNERS = [
+    'print("s");', 'var v1 = 1; print(v1);', 'let l1 = 2; print(l1);', 'const c1 = 3; print(c1);', 'function fd() { return "fd" } print(fd());', 'class CD {} print(typeof CD);',
+    'print(typeof tdzv); let tdzv = 1;', 'try { print(tdzl); } catch (e) { print("E", e.name) } let tdzl = 1;', 'break;', 'continue;', 'break L1;', 'return 5;', 'throw "T";',
+    'if (t) { print("it") } else { print("ie") }', 'for (var q = 0; q < 2; q++) print("q", q);', 'for (let q of [1]) { print((() => q)()); }', 'for (var kk in {z: 1}) print(kk);',
+    'while (false) {}', 'do { print("d"); } while (false);', 'switch (t) { case true: print("ct"); break; default: print("cd"); }', 'try { throw 2 } catch (e2) { print("ic", e2) }',
+    'try { print("tb") } finally { print("if2") }', 'try { throw 3 } catch (e3) { print("ic3") } finally { print("if3") }', 'try { return 6 } finally { print("rf6") }',
+    'try { break; } finally { print("bf") }', 'try { continue; } finally { print("cf") }', 'try { throw 4 } finally { print("tf") }', 'L2: { print("l2"); break L2; }',
+    'with ({wv: 1}) { print(wv); }', 'print(this === undefined, typeof this);', 'print(typeof arguments);', 'print(new.target === undefined);', 'var af = () => this; print(typeof af());',
+    'print(eval("1+1"));', 'eval("var ev = 1"); print(typeof ev);', 'print((function () { return typeof arguments })());', 'var {da, db = 2} = {da: 1}; print(da, db);',
+    'var [aa, ...ar] = [1, 2, 3]; print(aa, ar);', 'print(`t${n}`);', 'print(n++, ++n, n--);', 'n += 2; print(n);', 'n ??= 5; n ||= 6; n &&= 7; print(n);', 'print(t ? "y" : "n");',
+    'print(typeof undef, typeof n);', 'print(delete globalThis.nope);', 'var ob = {a: 1, get b() { return 2 }, [n]: 3}; print(ob);', 'print([1, , 3].length, [...[1, 2]]);',
+    'print((function* () { yield 1 })().next());', 'yield 1;', 'await 1;', 'print(await 2);', 'print(yield 2);', 'label3: for (;;) { break label3; }',
+    'var cnt = 0; outer: for (var a1 = 0; a1 < 2; a1++) { for (var b1 = 0; b1 < 2; b1++) { cnt++; if (b1) continue outer; } } print(cnt);',
+    'function rec(d) { return d ? rec(d - 1) + 1 : 0 } print(rec(3));', 'print((() => { try { return "a" } finally { print("f") } })());', 'print(((a, b = a) => a + b)(1));',
+    'var sym = Symbol("s"); print(sym);', 'print(1n + 2n, typeof 1n);', 'print(null ?? "d", undefined?.x, ({a: 1})?.a);', 'print(/a/.test("a"));', 'super.x;', 'print(new (class A { #p = 1; g() { return this.#p } })().g());',
+    'print([1, 2, 3].map(x => x * 2));', 'var gl = "g"; print(globalThis.gl);', 'let dup; let dup;', 'var vd; let vd;', 'const cc = 1; try { cc = 2 } catch (e) { print("E", e.name) }',
+    'debugger;', ';', '"use strict"; print("dir");', 'print(typeof fh); function fh() {}', 'print(typeof bh); { function bh() {} }', 'i = 9; print(i);', 'print(typeof i, typeof v, typeof k, typeof el);',
+]
+PAIR_KINDS = [('script', '@'), ('function', '(function () { @ })();'), ('strict-function', '(function () { "use strict"; @ })();'), ('generator', 'for (var gv of (function* () { @ })()) print("g", gv);'),
+              ('async', '(async function () { @ })().then(v => print("fv", v), e => print("fe", e));')]
+PAIR_PRE = 'var t = true, n = 0; ' + CTL_IT
+
+
+def pair_family(tier='quick'):
+    progs = []
+    kinds = PAIR_KINDS if tier == 'thorough' else PAIR_KINDS[:2] + PAIR_KINDS[3:4]
+    for kn, kw in kinds:
+        for o in PAIR_OUTERS:
+            for i in PAIR_INNERS:
+                if '@Q' in o:
+                    body = o.replace('@Q', i.replace('\\', '\\\\').replace('"', '\\"'))
+                elif '@S' in o:
+                    body = o.replace('@S', i)
+                else:
+                    body = o.replace('@', i)
+                progs.append(PAIR_PRE + 'try { ' + kw.replace('@', body) + ' } catch (e) { print("top", e) } print("n", n);')
+    return list(dict.fromkeys(progs))
